@@ -188,6 +188,8 @@ def check(ctx):
     ctx.attempt(_config_words)
     ctx.attempt(_by_position)
     ctx.attempt(_deadspace_siblings)
+    from .c13 import lockdown as _lockdown
+    ctx.attempt(_lockdown, ctx.repo.func('Tract.from_twprgesec'), only=('default_ns', 'default_ew'), source='config')
 
 
 def _tables(ctx):
